@@ -34,7 +34,7 @@ import (
 
 // Op is one step of a history.
 type Op struct {
-	Op   string `json:"op"` // push tag untag delete gc stray fetch exists resolve pred tags saveindex
+	Op   string `json:"op"` // push pushbad tag untag delete gc stray fetch exists resolve pred tags
 	N    int    `json:"n,omitempty"`
 	Ref  string `json:"ref,omitempty"`
 	Last string `json:"last,omitempty"`
@@ -49,6 +49,7 @@ type Scenario struct {
 	AutoSave bool          `json:"autosave"`
 	Ops      []Op          `json:"ops"`
 	Reopen   string        `json:"reopen"` // "all": reopen three ways after every mutating op; "end": only at the end
+	Annot    []bool        `json:"annot"`  // OCI: the descriptor used to tag node k carries annotations
 }
 
 var refs = []string{"t1", "t2", "v1.0"}
@@ -91,13 +92,19 @@ func (r *runner) nodeOf(d ocispec.Descriptor) int { return r.g.NodeOf(d) }
 // observe reads everything observable from a store.
 func (r *runner) observe(ctx context.Context, st readStore, kind string) map[string]any {
 	g := r.g
-	var exists, fetchok, byindex, byblob []int
+	var exists, fetchok, byindex, byblob, existsplain, fetchplain []int
 	for k := 1; k <= g.N; k++ {
 		if ok, _ := st.Exists(ctx, r.desc[k]); ok {
 			exists = append(exists, k)
 		}
 		if b, err := content.FetchAll(ctx, st, r.desc[k]); err == nil && bytes.Equal(b, g.Blobs[k]) {
 			fetchok = append(fetchok, k)
+		}
+		if ok, _ := st.Exists(ctx, g.Descs[k]); ok {
+			existsplain = append(existsplain, k)
+		}
+		if b, err := content.FetchAll(ctx, st, g.Descs[k]); err == nil && bytes.Equal(b, g.Blobs[k]) {
+			fetchplain = append(fetchplain, k)
 		}
 		if kind == "oci" {
 			if d, err := st.Resolve(ctx, g.Descs[k].Digest.String()); err == nil && d.Digest == g.Descs[k].Digest && d.Size == g.Descs[k].Size {
@@ -112,7 +119,7 @@ func (r *runner) observe(ctx context.Context, st readStore, kind string) map[str
 	tags := [][]any{}
 	for _, ref := range refs {
 		if d, err := st.Resolve(ctx, ref); err == nil {
-			tags = append(tags, []any{ref, r.nodeOf(d)})
+			tags = append(tags, []any{ref, r.nodeOf(d), annSig(d.Annotations)})
 		}
 	}
 	pred := make([][]int, g.N)
@@ -132,7 +139,7 @@ func (r *runner) observe(ctx context.Context, st readStore, kind string) map[str
 		}
 	}
 	return map[string]any{"exists": vh.Ints(exists), "fetchok": vh.Ints(fetchok), "byindex": vh.Ints(byindex), "byblob": vh.Ints(byblob),
-		"tags": tags, "pred": pred, "taglist": taglist}
+		"tags": tags, "pred": pred, "taglist": taglist, "existsplain": vh.Ints(existsplain), "fetchplain": vh.Ints(fetchplain)}
 }
 
 // disk reads the raw OCI layout directory.
@@ -244,6 +251,22 @@ func (r *runner) reopen(ctx context.Context, mode string) {
 	r.tr.Emit(map[string]any{"e": "obs", "mode": mode, "o": r.observe(ctx, st, "oci")})
 }
 
+// annSig is a canonical string of a descriptor's annotations without the reference name.
+func annSig(a map[string]string) string {
+	var ks []string
+	for k := range a {
+		if k != ocispec.AnnotationRefName {
+			ks = append(ks, k)
+		}
+	}
+	sort.Strings(ks)
+	var sb strings.Builder
+	for _, k := range ks {
+		sb.WriteString(k + "=" + a[k] + ";")
+	}
+	return sb.String()
+}
+
 var errHang = errors.New("hang")
 
 // guarded runs f with a watchdog.
@@ -273,6 +296,14 @@ func RunOne(t *testing.T, sc *Scenario, tr *vh.Tracer, base string) bool {
 		r.desc[k] = g.Descs[k]
 		if sc.Kind == "file" && k < len(sc.Names) && sc.Names[k] != "" {
 			r.desc[k].Annotations = map[string]string{ocispec.AnnotationTitle: sc.Names[k]}
+		}
+	}
+	// descriptors used for tagging: annotated ones share one map per node, as a caller's variable would
+	tagdesc := make([]ocispec.Descriptor, g.N+1)
+	for k := 1; k <= g.N; k++ {
+		tagdesc[k] = r.desc[k]
+		if sc.Kind == "oci" && k < len(sc.Annot) && sc.Annot[k] {
+			tagdesc[k].Annotations = map[string]string{"verif.note": fmt.Sprint("node-", k), "org.example/x": "y"}
 		}
 	}
 	var st interface {
@@ -344,8 +375,20 @@ func RunOne(t *testing.T, sc *Scenario, tr *vh.Tracer, base string) bool {
 		switch op.Op {
 		case "push":
 			m["res"] = cls(st.Push(ctx, r.desc[op.N], bytes.NewReader(g.Blobs[op.N])))
+		case "pushbad":
+			// wrong bytes of the right length under the node's descriptor: must be refused and change nothing
+			bad := bytes.Repeat([]byte("x"), len(g.Blobs[op.N]))
+			if len(bad) == 0 {
+				bad = []byte("x")
+			}
+			err := st.Push(ctx, r.desc[op.N], bytes.NewReader(bad))
+			m["res"] = cls(err)
+			if err != nil && !errors.Is(err, errdef.ErrAlreadyExists) && !errors.Is(err, file.ErrDuplicateName) {
+				m["res"] = "refused"
+			}
 		case "tag":
-			m["res"] = cls(st.Tag(ctx, r.desc[op.N], op.Ref))
+			m["res"] = cls(st.Tag(ctx, tagdesc[op.N], op.Ref))
+			m["ann"] = annSig(tagdesc[op.N].Annotations)
 		case "untag":
 			m["res"] = cls(ost.Untag(ctx, op.Ref))
 		case "delete":
@@ -430,12 +473,17 @@ func RunOne(t *testing.T, sc *Scenario, tr *vh.Tracer, base string) bool {
 func genScenario(rng *rand.Rand, kind string) Scenario {
 	n := 3 + rng.Intn(3)
 	succ := vh.RandomSucc(n, rng, 30+rng.Intn(30))
-	nodes := vh.ShapeFromSucc(succ, rng, vh.ShapeOpts{Subjects: true, Artifact: true, Docker: kind != "oci" || rng.Intn(3) == 0, Dup: true})
+	nodes := vh.ShapeFromSucc(succ, rng, vh.ShapeOpts{Subjects: true, Artifact: true, Docker: kind != "oci" || rng.Intn(3) == 0, Dup: true,
+		Alias: kind == "memory"})
 	sc := Scenario{Kind: kind, Nodes: nodes, AutoGC: rng.Intn(2) == 0, AutoSave: rng.Intn(4) != 0, Reopen: "end"}
 	if rng.Intn(5) == 0 {
 		sc.Reopen = "all"
 	}
 	sc.Names = make([]string, n+1)
+	sc.Annot = make([]bool, n+1)
+	for k := 1; k <= n; k++ {
+		sc.Annot[k] = kind == "oci" && rng.Intn(2) == 0
+	}
 	if kind == "file" {
 		for k := 1; k <= n; k++ {
 			if nodes[k].Kind == "blob" && rng.Intn(2) == 0 {
@@ -449,6 +497,10 @@ func genScenario(rng *rand.Rand, kind string) Scenario {
 	// start by pushing most nodes in a random order (children first, parents first, mixed)
 	perm := rng.Perm(n)
 	for _, p := range perm {
+		if rng.Intn(4) == 0 {
+			// a refused push of wrong bytes while the node is still absent must leave no trace
+			sc.Ops = append(sc.Ops, Op{Op: "pushbad", N: p + 1})
+		}
 		if rng.Intn(5) != 0 {
 			sc.Ops = append(sc.Ops, Op{Op: "push", N: p + 1})
 		}
@@ -456,6 +508,8 @@ func genScenario(rng *rand.Rand, kind string) Scenario {
 	for len(sc.Ops) < steps+n {
 		x := rng.Intn(100)
 		switch {
+		case x < 4:
+			sc.Ops = append(sc.Ops, Op{Op: "pushbad", N: node()})
 		case x < 14:
 			sc.Ops = append(sc.Ops, Op{Op: "push", N: node()})
 		case x < 34:
